@@ -13,7 +13,7 @@ Dims == [kind  : {"gpt", "mbr"},
          lss   : {"512", "4096"},
          pss   : {"512", "4096"},
          rlen  : {"zero", "minus1", "exact", "plus1"},
-         chunk : {"whole", "one", "c513", "pssp1", "eofdata"},      \* eofdata: pieces of 512 bytes, the last one returned TOGETHER with io.EOF
+         chunk : {"whole", "one", "c513", "pssp1", "eofdata", "seeked"},      \* eofdata: pieces of 512 bytes, the last one returned TOGETHER with io.EOF; seeked: an io.ReadSeeker positioned behind a header it has already supplied
          \* what is streamed over what: a non-zero pattern, all zeroes, or a pattern whose odd physical
          \* sectors are zero - always onto a partition that already holds other non-zero bytes
          data  : {"pat", "zero", "holes"},
